@@ -4,6 +4,7 @@ From Coq Require Import List Bool Arith ZArith.
 From HV Require Import Ord Sprout Tree TreeLemmas TreeInv TreeRun.
 From HV Require Import DriverPrim Driver DriverFacts GenDriver GenEquivDriver DriverCode GenStops GenEquivStops.
 From HV Require Import Minimize GenMinimize GenEquivMinimize.
+From HV Require GenStopsPrecision GenEquivStopsPrecision.
 Import ListNotations.
 
 (* the run ends only through a TRUE consult at a metaepoch boundary, and nothing happens afterwards *)
@@ -136,6 +137,18 @@ Proof. exact (root_weights_root_only c limit s). Qed.
 Print Assumptions C05_root_weighting_counts_the_root_level_only.
 Example C05_weights_examples : weights_of 3 WRoot = Some [1; 0; 0] /\ weights_of 3 WNone = Some [1; 1; 1] /\ weights_of 2 (WList [2; 3]) = Some [2; 3] /\ weights_of 3 WOtherStr = None.
 Proof. repeat split. Qed.
+(* "precision reached": the translated SingularProblemPrecisionReached answers the flag of the precision wrapper it was constructed with; with the wrapper
+   model of Model/Problem.v (C16): after the wrapper forwarded the values vs it holds exactly when it held before or one of vs is within the precision, and it latches *)
+Theorem C05_translated_SingularProblemPrecisionReached vs w :
+  GenStopsPrecision.gen_SingularProblemPrecisionReached (fold_left (Problem.local Problem.KPrecision) vs w)
+  = GenStopsPrecision.gen_SingularProblemPrecisionReached w || existsb (Problem.prec_test w) vs.
+Proof. exact (GenEquivStopsPrecision.SingularProblemPrecisionReached_after vs w). Qed.
+Print Assumptions C05_translated_SingularProblemPrecisionReached.
+Theorem C05_translated_SingularProblemPrecisionReached_latches vs w :
+  GenStopsPrecision.gen_SingularProblemPrecisionReached w = true ->
+  GenStopsPrecision.gen_SingularProblemPrecisionReached (fold_left (Problem.local Problem.KPrecision) vs w) = true.
+Proof. exact (GenEquivStopsPrecision.SingularProblemPrecisionReached_latches vs w). Qed.
+Print Assumptions C05_translated_SingularProblemPrecisionReached_latches.
 Theorem C05_translated_NoActiveNonrootDemes c fuel n s :
   exists b, answers (gen_NoActiveNonrootDemes c fuel n) s b /\ gsc_eval (GNoActiveNonroot n) (height c) (ms s) = Some b.
 Proof. exact (NoActiveNonrootDemes_ok c fuel n s). Qed.
